@@ -144,7 +144,7 @@ PROPS = {
                      # the bridge module's EndBlock with collaborators that panic (batch build, tally, time-out sweep)
                      {"test": "TestC09Sky", "dir": "C09S", "n_quick": 40, "n_thorough": 400}],
         n_quick=8, n_thorough=8, thorough_seeds=4, timeout_quick=900, timeout_thorough=5000, env_thorough={"VERIF_BLOCKS": "10100"},
-        spec_ops=["block", "gate", "endblock"],
+        spec_ops=["block", "gate", "endblock", "attestch"],
         level_text="PARTIAL. Lean 4 theorems: the per-message loops of the consensus end-blocker treat a failing message exactly as if it were absent (failing_message_is_skipped, every_message_gets_its_turn; tied to the source by the regenerated fact that no statement inside those loops leaves the function with an error); the fee arithmetic on the end-block path is total with explicit error outcomes for every multiplicator (missing, negative, astronomically large) and estimate, and — by decide over the inventory "
                    "regenerated from the typed source on every run (call-graph reachability from every module's Begin/EndBlock, stopping at functions that install a recover) — every explicit panic, Must* call, narrowing sdkmath conversion, sdkmath division, "
                    "unchecked type assertion and slice-to-array conversion on the block path is a harmless kind or individually justified. Panics inside the SDK / wasm / IBC and resource exhaustion are outside the inventory: the full application is fuzzed with hostile values "
